@@ -41,6 +41,8 @@ def run(pid, tier, seed):
       for mv in (None, 2, 0):
         cfgs.append({"fam": "po2", "cls": cls, "bits": bits, "hasmv": mv is not None, "mvk": mv or 0, "sl": 0,
                      "mode": "rnd"})
+  for temp in ([3, 1], [1, 1], [1, -1]):           # temperature 6.0, 2.0, 0.5
+    cfgs.append({"fam": "sb", "kind": "stochastic_binary", "alpha": "None", "temp": temp})
   for kind in ("po2_quad", "relu_po2_quad"):
     for bits in (3, 4, 5):
       for mv in (None, 2, 0):
